@@ -463,6 +463,13 @@ package nfa
 //@   requires 0x800 <= lo && lo <= hi && hi <= 0xFFFF && (hi <= 0xD7FF || lo >= 0xE000)
 //@   modifies c.builder.states, c.builder.states[*], c.builder.byteClassSet.*
 //@   ghost var nxt = lo
+// stepping stones (proved, then available to the obligations below): the six boundary bytes as div/mod terms
+//@   after call AddByteRange#1: int(loLead) == 224 + lo / 4096 && int(loCont1) == 128 + (lo / 64) % 64 && int(loCont2) == 128 + lo % 64 && int(hiLead) == 224 + hi / 4096 && int(hiCont1) == 128 + (hi / 64) % 64 && int(hiCont2) == 128 + hi % 64
+//@   after call AddByteRange#1: lo == 4096 * (lo / 4096) + 64 * ((lo / 64) % 64) + lo % 64 && hi == 4096 * (hi / 4096) + 64 * ((hi / 64) % 64) + hi % 64
+//@   after call AddByteRange#4: int(loLead) == 224 + lo / 4096 && int(loCont1) == 128 + (lo / 64) % 64 && int(loCont2) == 128 + lo % 64 && int(hiLead) == 224 + hi / 4096 && int(hiCont1) == 128 + (hi / 64) % 64 && int(hiCont2) == 128 + hi % 64
+//@   after call AddByteRange#4: lo == 4096 * (lo / 4096) + 64 * ((lo / 64) % 64) + lo % 64 && hi == 4096 * (hi / 4096) + 64 * ((hi / 64) % 64) + hi % 64
+//@   after call AddByteRange#7: int(loLead) == 224 + lo / 4096 && int(loCont1) == 128 + (lo / 64) % 64 && int(loCont2) == 128 + lo % 64 && int(hiLead) == 224 + hi / 4096 && int(hiCont1) == 128 + (hi / 64) % 64 && int(hiCont2) == 128 + hi % 64
+//@   after call AddByteRange#7: lo == 4096 * (lo / 4096) + 64 * ((lo / 64) % 64) + lo % 64 && hi == 4096 * (hi / 4096) + 64 * ((hi / 64) % 64) + hi % 64
 //@   after call AddByteRange#3: ch3(c.builder, lastcall, endState)
 //@   after call AddByteRange#3: box3ok(c.builder.states[lastcall].lo, c.builder.states[lastcall].hi, c.builder.states[c.builder.states[lastcall].next].lo, c.builder.states[c.builder.states[lastcall].next].hi, c.builder.states[c.builder.states[c.builder.states[lastcall].next].next].lo, c.builder.states[c.builder.states[c.builder.states[lastcall].next].next].hi)
 //@   after call AddByteRange#3: dec3(c.builder.states[lastcall].lo, c.builder.states[c.builder.states[lastcall].next].lo, c.builder.states[c.builder.states[c.builder.states[lastcall].next].next].lo) == nxt
@@ -519,7 +526,7 @@ package nfa
 //@   opt safety=off
 //@   opt frame=off
 //@   opt check_requires=splitUTF84ByteRange
-//@   opt timeout_factor=4
+//@   opt timeout_factor=6
 //@   requires bOK(c)
 //@   requires 0x10000 <= lo && lo <= hi && hi <= 0x10FFFF
 //@   modifies c.builder.states, c.builder.states[*], c.builder.byteClassSet.*
@@ -532,6 +539,11 @@ package nfa
 //@   after call splitUTF84ByteRange#3: ghost nxt = lastarg2 + 1
 //@   after call splitUTF84ByteRange#4: lastarg1 == nxt
 //@   after call splitUTF84ByteRange#4: ghost nxt = lastarg2 + 1
+//@   after call AddByteRange#1: int(lastarg1) == 128 + lo % 64 && int(lastarg2) == 128 + hi % 64
+//@   after call AddByteRange#2: int(lastarg1) == 128 + (lo / 64) % 64 && int(lastarg2) == 128 + (hi / 64) % 64
+//@   after call AddByteRange#3: int(lastarg1) == 128 + (lo / 4096) % 64 && int(lastarg2) == 128 + (hi / 4096) % 64
+//@   after call AddByteRange#4: int(lastarg1) == 240 + lo / 262144 && int(lastarg2) == 240 + hi / 262144
+//@   after call AddByteRange#4: lo == 262144 * (lo / 262144) + 4096 * ((lo / 4096) % 64) + 64 * ((lo / 64) % 64) + lo % 64 && hi == 262144 * (hi / 262144) + 4096 * ((hi / 4096) % 64) + 64 * ((hi / 64) % 64) + hi % 64
 //@   after call AddByteRange#4: ch4(c.builder, lastcall, endState)
 //@   after call AddByteRange#4: box4ok(c.builder.states[lastcall].lo, c.builder.states[lastcall].hi, c.builder.states[c.builder.states[lastcall].next].lo, c.builder.states[c.builder.states[lastcall].next].hi, c.builder.states[c.builder.states[c.builder.states[lastcall].next].next].lo, c.builder.states[c.builder.states[c.builder.states[lastcall].next].next].hi, c.builder.states[c.builder.states[c.builder.states[c.builder.states[lastcall].next].next].next].lo, c.builder.states[c.builder.states[c.builder.states[c.builder.states[lastcall].next].next].next].hi)
 //@   after call AddByteRange#4: dec4(c.builder.states[lastcall].lo, c.builder.states[c.builder.states[lastcall].next].lo, c.builder.states[c.builder.states[c.builder.states[lastcall].next].next].lo, c.builder.states[c.builder.states[c.builder.states[c.builder.states[lastcall].next].next].next].lo) == nxt
